@@ -1,5 +1,7 @@
 import Walrus.Proofs.GcEmit
 import Walrus.Proofs.GcCode
+import Walrus.Proofs.GcCodeEmit
+import Walrus.Proofs.BodiesOK
 
 /-!
 # C02 (continued) — after the GC pass every section finds the indices it needs
@@ -79,6 +81,74 @@ example : (mkGcInfo sample).map (fun g => (g.pfs.map fun pf => (refsOfBody pf.se
     some [[("g", 1)], []] := by decide
 example : (gcRoundTrip sample).map (fun o => (o.imports.length, o.funcs.length, o.globals.length, o.elems.length, o.datas.length)) =
     some (2, 2, 1, 1, 1) := by decide
+
+/-- **after GC, the code section emits**: for every module whose references are in range (`gcWF`)
+    and whose function bodies are well-nested, carry immediates where the binary format has them
+    and parse (`BodiesWF`: what the decoder and the validator guarantee, in the tree terms of the
+    C03 theorems), the emission of the type, function and code sections after the pass answers:
+    the traversal of every kept body finishes within the model's fuel, every branch target
+    resolves, the block-kind stack never underflows, and every lookup the `Emit` visitor makes —
+    entity operands, locals (`emit_locals` covers every local the body uses), block types, the
+    function's own type — finds an index. -/
+theorem after_gc_the_code_section_emits (m : ModuleM) (g : GcInfo) (hg : mkGcInfo m = some g)
+    (hlen : m.code.length = m.funcs.length) (hw : gcWF g = true) (hb : BodiesWF m g) :
+    (emitCodeWith (codeOf m) g.pfs (gcKeep g m)).isSome = true :=
+  gc_code_section_emits m g hg hlen hw hb
+
+/-- **after GC, the whole module emits** (the model's `parse → gc::run → emit` answers, i.e. no
+    `get_*_index` of an entity without an emitted index, no unresolved branch target, no missing
+    local): `after_gc_the_code_section_emits` discharges the one hypothesis
+    `after_gc_every_section_emits` left open. What remains outside a theorem for C02 is the
+    verdict of the validator on the bytes. -/
+theorem after_gc_the_whole_module_emits (m : ModuleM) (g : GcInfo) (hg : mkGcInfo m = some g)
+    (hlen : m.code.length = m.funcs.length) (hw : gcWF g = true) (hs : SectionsWF m) (hb : BodiesWF m g) :
+    (gcRoundTrip m).isSome = true := by
+  obtain ⟨oc, hoc⟩ := Option.isSome_iff_exists.1 (gc_code_section_emits m g hg hlen hw hb)
+  exact after_gc_every_section_emits m g hg hlen hw hs oc hoc
+
+/-- emission of one parsed body fails only if a lookup fails (any maps, no pass needed): the fuel
+    suffices, branch targets resolve, the kind stack never underflows -/
+theorem parsed_body_emission_fails_only_on_a_lookup (mp : IdMaps) (e : PEnv) (entryTy : Nat) (body : PL)
+    (hw : body.WF) (hc : body.Clean) (endLoc : Nat) (is : List (BInstr × Nat)) (cs : List PSeq) (u : Bool)
+    (h : expL e [0] 1 false body = some (is, cs, u)) :
+    ∃ seqs, buildBody e entryTy (body.flat ++ [(opEnd, endLoc)]) = some seqs ∧
+      ((∀ ev ∈ (bodyEvents (PSeqs.toArena seqs) (arenaFuel (PSeqs.toArena seqs)) 0).2.tail, evOKp e mp ev) →
+        (emitBodyMarks mp (PSeqs.toArena seqs) 0).isSome = true) :=
+  parsed_body_emits mp e entryTy body hw hc endLoc is cs u h
+
+-- non-vacuity: the sample module satisfies every hypothesis of `after_gc_the_whole_module_emits`
+def sampleBody0 : PL := .cons (.op ⟨"GlobalGet", [.ref "g" 1]⟩ 0) (.cons (.op ⟨"Drop", []⟩ 0) .nil)
+
+example : ∃ g, mkGcInfo sample = some g ∧ sample.code.length = sample.funcs.length ∧ gcWF g = true ∧
+    BodiesWF sample g := by
+  refine ⟨_, rfl, by decide, by decide, ?_⟩
+  intro k f pf hf hpf
+  match k with
+  | 0 =>
+    simp only [codeOf, sample] at hf
+    obtain rfl := Option.some.inj hf
+    obtain rfl := Option.some.inj hpf
+    exact ⟨sampleBody0, 0, _, _, _, by simp [sampleBody0, PL.WF, PI.WF, isStructural],
+      by simp [sampleBody0, PL.Clean, PI.Clean, opClean], rfl, rfl⟩
+  | 1 =>
+    simp only [codeOf, sample] at hf
+    obtain rfl := Option.some.inj hf
+    obtain rfl := Option.some.inj hpf
+    exact ⟨.nil, 0, _, _, _, by simp [PL.WF], by simp [PL.Clean], rfl, rfl⟩
+  | k + 2 => simp [codeOf, sample] at hf
+
+/-- **the same with every hypothesis decidable** — and evaluated by the model driver on every case
+    of the correspondence run (`gcWF`: "reference-out-of-range", `bodiesOK`: "body-not-well-nested",
+    `sectionsOK`: "section-not-well-formed"; a case on which one of them failed would be answered
+    with that word instead of a module and show as a disagreement): whenever the checks pass, the
+    model's `parse → gc::run → emit` answers with a module -/
+theorem after_gc_the_whole_module_emits_checked (m : ModuleM) (g : GcInfo) (hg : mkGcInfo m = some g)
+    (hlen : m.code.length = m.funcs.length) (hw : gcWF g = true) (hs : sectionsOK m = true)
+    (hb : bodiesOK m g = true) : (gcRoundTrip m).isSome = true :=
+  after_gc_the_whole_module_emits m g hg hlen hw (sectionsOK_sound m hs) (bodiesOK_sound m g hg hb)
+
+example : (mkGcInfo sample).map (fun g => (gcWF g, bodiesOK sample g, sectionsOK sample)) = some (true, true, true) := by
+  decide
 
 end C02
 end Walrus
